@@ -26,3 +26,11 @@ package parser
 //@ func (t *Type) Equals(t2 *Type) (r bool)
 //@   noverify contract used by callers in package evaluator; the body is verified under C04
 //@   modifies nothing
+
+// Parse either returns a program or a non-nil error (C03); a returned program is well-formed for the
+// evaluator (shape and typing facts listed as assumptions in pkg/evaluator/contracts_eval_verif.go).
+//@ func Parse(input string, builtins Builtins) (prog *Program, err error)
+//@   noverify entry point of the parser: its body is covered piecewise under C03/C04/C05
+//@   ensures err == nil ==> prog != nil && wf(Node(prog))
+//@   ensures err != nil ==> prog == nil
+//@   modifies nothing
